@@ -9,7 +9,9 @@ import (
 	"strings"
 	"sync"
 
+	"github.com/unixpickle/model3d/model2d"
 	"github.com/unixpickle/model3d/model3d"
+	"github.com/unixpickle/model3d/toolbox3d"
 	"verif/harness/choice"
 	"verif/harness/simsched"
 	"verif/harness/wproto"
@@ -241,7 +243,7 @@ func meshHash3(m *model3d.Mesh) string {
 
 // startMesh3 picks how the history begins.
 func startMesh3(src *choice.Source, h *hist3) {
-	kind := src.Intn(7)
+	kind := src.Intn(9) // (recorded tapes hold reduced values, so the range may grow)
 	switch kind {
 	case 0:
 		h.real = model3d.NewMesh()
@@ -295,6 +297,32 @@ func startMesh3(src *choice.Source, h *hist3) {
 		m := model3d.NewMeshRect(model3d.XYZ(0, 0, 0), model3d.XYZ(1, 2, 0.5))
 		h.real = m.EliminateCoplanar(1e-8)
 		h.log("EliminateCoplanar")
+	case 7: // toolbox3d's singularity fixer: Remove, rewrite a vertex in place, Add - on an indexed mesh
+		rs := toolbox3d.NewRectSet()
+		rs.Add(&model3d.Rect{MinVal: model3d.XYZ(0, 0, 0), MaxVal: model3d.XYZ(1, 1, 1)})
+		switch src.Intn(3) {
+		case 0: // the two boxes share an edge
+			rs.Add(&model3d.Rect{MinVal: model3d.XYZ(1, 1, 0), MaxVal: model3d.XYZ(2, 2, 1)})
+		case 1: // ... a corner
+			rs.Add(&model3d.Rect{MinVal: model3d.XYZ(1, 1, 1), MaxVal: model3d.XYZ(2, 1.5, 2)})
+		default: // ... an edge and, with a third box, a corner
+			rs.Add(&model3d.Rect{MinVal: model3d.XYZ(1, 1, 0), MaxVal: model3d.XYZ(2, 2, 0.5)})
+			rs.Add(&model3d.Rect{MinVal: model3d.XYZ(-1, -1, 1), MaxVal: model3d.XYZ(0, 0, 2)})
+		}
+		h.real = rs.Mesh()
+		h.log("RectSet.Mesh")
+	case 8: // height-map mesh: separateSingularVertices edits the indexed mesh in place
+		hm := toolbox3d.NewHeightMap(model2d.XY(0, 0), model2d.XY(1, 1), 4+src.Intn(4))
+		n := 1 + src.Intn(3)
+		for i := 0; i < n; i++ {
+			hm.AddSphere(model2d.XY(src.Float(), src.Float()), 0.15+0.25*src.Float())
+		}
+		if src.Chance(1, 2) {
+			h.real = hm.Mesh()
+		} else {
+			h.real = hm.MeshBidir()
+		}
+		h.log("HeightMap.Mesh")
 	}
 	h.list = sortedFaces(h.real.TriangleSlice())
 	if kind >= 2 {
